@@ -808,7 +808,7 @@ static Outcome interpret (const Plan& p, Stats& st)
                     snprintf (buf, sizeof buf, "state->%012" PRIx64 " imath=%a", l.x, im);
                     fail (stepNo, "erand48/outside-[0,1)", buf);
                 }
-                else if (!(std::fabs (im - gl) < 0x1p-48))
+                else if (!(std::fabs (im - gl) <= 0x1p-48)) // "to within 2^-48": a difference of exactly 2^-48 is within
                 {
                     snprintf (buf, sizeof buf, "state->%012" PRIx64 " imath=%a posix=%a", l.x, im, gl);
                     fail (stepNo, "erand48/differs-from-posix", buf);
@@ -871,7 +871,7 @@ static Outcome interpret (const Plan& p, Stats& st)
                 o.hash = fnv (o.hash, dbits (im));
                 if (gl != md) fail (stepNo, "harness/glibc-vs-lcg-model", "drand48");
                 if (!(im >= 0.0 && im < 1.0)) { snprintf (buf, sizeof buf, "imath=%a", im); fail (stepNo, "drand48/outside-[0,1)", buf); }
-                else if (!(std::fabs (im - gl) < 0x1p-48))
+                else if (!(std::fabs (im - gl) <= 0x1p-48)) // "to within 2^-48": a difference of exactly 2^-48 is within
                 {
                     snprintf (buf, sizeof buf, "global draw #%d imath=%a posix=%a", gDraws, im, gl);
                     fail (stepNo, "drand48/differs-from-posix", buf);
